@@ -27,7 +27,7 @@ PROP = {
              "under the observed flags + 5 after a dispatch, 1 when suspended), >= 4, that LY follows the LCD schedule of the same "
              "clock total, then replays the program on Core.update Sys.dev and compares registers, IME, run state, all five IF "
              "bits, DIV, LY, STAT, frames_completed, OAM-DMA progress and an OAM digest after every step (programs program TMA/TIMA/TAC, STAT enables, LYC and IE "
-             "incl. the VBlank/STAT bits, start OAM DMAs, HALT on timer or STAT wake-ups, one tail in six provokes a CANCELLED "
+             "incl. the VBlank/STAT bits, start OAM DMAs, select joypad lines and get key presses / releases injected between steps (joypad interrupt, HALT / STOP wake-up), HALT on timer or STAT wake-ups, one tail in six provokes a CANCELLED "
              "dispatch with SP = 0 - every dispatch recognisable in the outputs must leave exactly five cycles pending); c09.blocks (jit build) "
              "checks clocks = 4 x last_block_cycle_length per block and the block model; c09.frame (jit build) runs the REAL "
              "Core::run_frame twice in a child process under an alarm on NOP-sled blocks of parametrised length (incl. 1463- and "
